@@ -124,6 +124,7 @@ def filter_pool():
     pool = [F('type', '=', 'identity'), F('type', '=', 'tool'), F('type', '!=', 'identity'), F('type', 'in', ['identity', 'tool']), F('type', 'in', ['malware']),
             F('type', 'in', 'tools'), F('type', 'in', 'identity-tool'), F('type', '=', ['identity']), F('type', '>', 'identity'), F('type', 'contains', 'oo'),
             F('id', '=', ID('identity', 1)), F('id', '!=', ID('identity', 1)), F('id', 'in', [ID('identity', 1), ID('tool', 3)]), F('id', 'in', [ID('identity', 2)]),
+            F('id', 'in', [ID('malware', 4), ID('identity', 1)]), F('id', 'in', [ID('identity', 1), ID('malware', 4), ID('tool', 3)]),          # (ids of several types, several versions each)
             F('id', '=', ID('tool', 3)), F('id', 'in', ID('identity', 1) + 'x'), F('id', '=', (ID('identity', 1),)), F('id', '>', 'identity'),
             F('name', '=', 'alpha'), F('name', '!=', 'alpha'), F('name', 'in', ['alpha', 'gamma']), F('name', 'contains', 'a'), F('name', '>=', 'b'), F('name', '<', 'beta'),
             F('created', '=', '2020-01-01T00:00:00Z'), F('created', '=', '2020-01-01T00:00:00.000Z'), F('created', '>', '2020-01-01T00:00:00Z'), F('created', '<=', '2020-01-02T00:00:00.000001Z'),
@@ -242,6 +243,33 @@ def run(chk):
                     if rg != 'error' and wg != 'error' and rg != wg and rg != wg2:
                         return (f'get#{sname}', f'{sname}: attached {fset[1:]}; get({oid}) returned {rg}, reference {wg}', {})
             return None
+        # ---- attached filter sets have a history: attach / detach / attach again, in every order -- what is in force is what a list model says
+        hist_filters = [pool[0], pool[2], next(f for f in pool if f.property == 'name' and f.op == '!=')]
+        def fs_hist_cases():
+            for n in (1, 2, 3, 4):
+                for j, seq in enumerate(itertools.product([(op, i) for op in ('add', 'remove') for i in range(len(hist_filters))], repeat=n)):
+                    if n == 4 and (j + chk.seed) % 7: continue
+                    yield seq
+        def fs_hist_check(seq):
+            for sname in ('memory', 'filesystem'):
+                src = MemorySource(stix_data=mem._data, _store=True) if sname == 'memory' else FileSystemSource(os.path.join(tmp, 'fs'))
+                model = []
+                for op, i in seq:
+                    f = hist_filters[i]
+                    if op == 'add':
+                        src.filters.add(f)
+                        if f not in model: model.append(f)
+                    else:
+                        try: src.filters.remove(f)
+                        except (ValueError, KeyError):
+                            if f in model: return ('attached#history of the filter set', f'{sname}: {seq}: removing an attached filter failed', {})
+                        if f in model: model.remove(f)
+                if sorted(map(repr, src.filters)) != sorted(map(repr, model)):
+                    return ('attached#history of the filter set', f'{sname}: after {[(o, repr(hist_filters[i])) for o, i in seq]} the attached filters are {list(src.filters)}, list model {model}', {})
+                r = got(lambda: src.query()); want = expect(model)
+                if r != want: return ('attached#history of the filter set', f'{sname}: after {[(o, hist_filters[i].property + hist_filters[i].op) for o, i in seq]} query() returned {r}, reference under {model}: {want}', {})
+        chk.bounded('attached filter sets: attach / detach histories vs a list model', list(fs_hist_cases()), fs_hist_check, classify=lambda c: c,
+                    bound='3 filters x {attach, detach} sequences of length <= 4 (every 7th of length 4), memory and filesystem source')
         chk.bounded('end-to-end: filter sets x stores x routes vs reference', list(cases()), check, classify=lambda c: c,
                     bound=f'{len(pool)} filters, sets of size <= {3 if chk.tier == "thorough" else 2} (size-2: every 3rd, size-3: every 17th combination by seed), 8 objects, memory + filesystem, 5 routes (query argument, attached, composite, nested composite, re-used FilterSet)')
         # ---- history: the stores keep answering from their current content (a new version of an id already held, a new id, content written by someone else)
